@@ -393,6 +393,10 @@ def p_score(reference_beats, estimated_beats, p_score_threshold=0.2):
     # Window size to take the correlation over
     # defined as .2*median(inter-annotation-intervals)
     annotation_intervals = np.diff(np.flatnonzero(reference_train))
+    # When all reference beats fall into the same 10ms bin there are no
+    # inter-annotation intervals, so the metric can't be computed; return 0
+    if annotation_intervals.size == 0:
+        return 0.0
     win_size = int(np.round(p_score_threshold * np.median(annotation_intervals)))
     # Get full correlation
     train_correlation = np.correlate(reference_train, estimated_train, "full")
